@@ -41,3 +41,10 @@ Example C20_rejects_camel_case :
   /\ binds services messages ("tx", "CancelAuction", "cancel-auction [auction-id]", false, [("auctionId", false, false)]) = false
   /\ binds services messages ("tx", "CancelAuction", "cancel-auction [auction-id]", false, [("auction_id", false, false)]) = true.
 Proof. vm_compute. repeat split; reflexivity. Qed.
+
+(* every (amino.encoding) option on a field of the module's messages is one the answer renderer of the CLI accepts
+   for that field: "legacy_coins" only on repeated Coin fields (it was on seven single Coin fields - D19 - and no
+   answer containing an auction, a bid or a vesting queue could be displayed) *)
+Theorem C20_answers_renderable : forallb encoding_ok amino_encodings = true.
+Proof. vm_compute. reflexivity. Qed.
+Print Assumptions C20_answers_renderable.
